@@ -117,8 +117,8 @@ def _states_deep(seed):
     for fam, deg, k, p, sc, pto in itertools.product(["log", "lambert", "linear"], [2, 3, 4, 5], ["F2", "FL", "F3", "g1", "gL", "g4"], ["EM", "NC", "CC"], ["ZM-VFNS", "FFNS3"], [0, 1, 2]):
         if p == "CC" and k in ("g1", "gL", "g4") or p == "EM" and k in ("F3", "gL", "g4"):
             continue
-        if pto == 2 and sc == "FFNS3":
-            continue
+        if pto == 2 and (sc == "FFNS3" or fam == "lambert" or deg == 2):
+            continue  # not an adequate ladder at O(a_s^2): with quadratic interpolation / 50 lambert points even the finest grid is 1.5% off (measured), so it cannot serve as the reference
         out.append({"family": fam, "degree": deg, "kind": k, "process": p, "scheme": sc, "pto": pto, "heavyness": "total"})
     return out
 
